@@ -342,6 +342,13 @@ func tierFor(prop, tier string) tierSpec {
 	return quick[prop]
 }
 
+func failCap(tier string) int {
+	if tier == "thorough" {
+		return 2500
+	}
+	return 400
+}
+
 type failRec struct {
 	f Failure
 	c *Case
@@ -534,7 +541,9 @@ func driveMain(args []string) int {
 				}
 				ninfra := len(agg.infra)
 				agg.mu.Unlock()
-				if nf >= 400 || ninfra > 0 {
+				// failing cases still to be attributed (most of them to known findings, through counterfactual runs) are
+				// costly: the search stops dispatching once it holds this many; evidence reports it as stopped_early
+				if nf >= failCap(cfg.tier) || ninfra > 0 {
 					stopOnce.Do(func() { close(stopDispatch) })
 				}
 			}
